@@ -1,6 +1,116 @@
-"""Self-test corpus of the thorough tier (filled in below): the checker must fire on every breaking
-variant of the seeded/regression corpus and stay silent on every behaviour-preserving twin."""
+"""Self-test corpus of the thorough tier.
+
+For the property under check: every seeded breaking change of /verif/seeded (sub-agent changes that
+were confirmed to break the property while passing the test-suite, and the reversed `fix:` commits
+that re-introduce the genuine defects) is applied to a scratch copy of /repo's package in a fresh
+temporary directory; the checker must report a violation on it.  Two behaviour-preserving twins
+computed on the syntax tree (reformat, rename-locals) must leave the checker silent.  A miss or a
+twin alarm means the checker is broken: ANALYSIS-ERROR, never a verdict about /repo.
+Nothing is executed: variants are parsed and analysed like /repo itself."""
+import ast
+import glob
+import importlib
+import json
+import os
+import shutil
+import subprocess
+import tempfile
+from concurrent.futures import ProcessPoolExecutor
+
+from . import core
+
+VERIF = core.VERIF
+MODS = ['io', 'transform', 'gate', 'stats', 'mef', 'plot', 'excel_ui']
+
+
+def _twin_module():
+    import importlib.util
+    spec = importlib.util.spec_from_file_location('twins', os.path.join(VERIF, 'tools', 'twins.py'))
+    m = importlib.util.module_from_spec(spec)
+    spec.loader.exec_module(m)
+    return m
+
+
+def _analyse(pid, root):
+    """Run the property's rules on `root`; returns (n_violations_unlisted, error or None, n_obligations)."""
+    cx = core.Context(pid, None, 'quick', 0)
+    try:
+        cx.repo = core.Repo(root)
+        mod = importlib.import_module('flowlint.props.' + pid.lower())
+        mod.run(cx)
+        err = None
+    except core.AnalysisError as e:
+        err = str(e)
+    except Exception as e:
+        err = 'internal %s: %s' % (type(e).__name__, e)
+    known = {k['key'] for k in core.load_known().get('known', []) if k.get('property') == pid}
+    unlisted = [v for v in cx.violations if v['key'] not in known]
+    return len(unlisted), err, len(cx.obligations), [v['instance'] for v in unlisted[:3]]
+
+
+def _one(args):
+    pid, kind, name, patch, reverse = args
+    tmp = tempfile.mkdtemp(prefix='flowlint_selftest_')
+    try:
+        if kind == 'twin':
+            _twin_module().make(name, tmp)
+        else:
+            shutil.copytree('/repo/FlowCal', os.path.join(tmp, 'FlowCal'))
+            p = subprocess.run(['patch', '-p1', '-s', '-d', tmp] + (['-R'] if reverse else []), stdin=open(patch),
+                               stdout=subprocess.PIPE, stderr=subprocess.STDOUT)
+            if p.returncode != 0:
+                return (kind, name, 'does-not-apply', None, 0, [])
+            for m in MODS:
+                src = open(os.path.join(tmp, 'FlowCal', m + '.py')).read()
+                compile(src, m, 'exec')
+        nv, err, nob, inst = _analyse(pid, tmp)
+        return (kind, name, 'ok', err, nv, inst)
+    finally:
+        shutil.rmtree(tmp, ignore_errors=True)
 
 
 def run(cx, pid):
-    cx.note('self-test corpus not built yet')
+    jobs = []
+    for d in sorted(glob.glob(os.path.join(VERIF, 'seeded', '*', 'meta.json'))):
+        meta = json.load(open(d))
+        if meta.get('property') == pid or pid in meta.get('also', []):
+            jobs.append((pid, 'breaking', os.path.basename(os.path.dirname(d)), os.path.join(os.path.dirname(d), 'patch.diff'),
+                         bool(meta.get('reverse'))))
+    for t in ('reformat', 'rename-locals'):
+        jobs.append((pid, 'twin', t, None, False))
+    with ProcessPoolExecutor(min(16, max(1, len(jobs)))) as ex:
+        results = list(ex.map(_one, jobs))
+    missed, alarms, stale = [], [], []
+    n_break = n_twin = 0
+    rows = []
+    for kind, name, status, err, nv, inst in results:
+        rows.append('%s %s: %s' % (kind, name, 'stale patch' if status != 'ok' else
+                                   ('%d violation(s)%s' % (nv, (' / analysis error: ' + err[:80]) if err else ''))))
+        if status != 'ok':
+            stale.append(name)
+            continue
+        if kind == 'breaking':
+            n_break += 1
+            if nv == 0:
+                missed.append(name + (' (analysis error: %s)' % err[:100] if err else ''))
+        else:
+            n_twin += 1
+            if nv != 0 or err:
+                alarms.append('%s (%s)' % (name, err[:100] if err else ', '.join(inst)))
+    cx.tables['self-test variants'] = rows
+    cx.count('selftest_breaking_variants', n_break)
+    cx.count('selftest_twins', n_twin)
+    cx.count('selftest_stale_patches', len(stale))
+    for kind, name, status, err, nv, inst in results:
+        if status == 'ok':
+            okv = (nv > 0) if kind == 'breaking' else (nv == 0 and not err)
+            cx.obligations.append({'rule': 'SELFTEST', 'instance': '%s variant %s: checker %s' % (
+                kind, name, 'fires' if kind == 'breaking' else 'stays silent'), 'site': 'scratch copy of /repo/FlowCal',
+                'status': 'discharged' if okv else 'VIOLATED', 'detail': '', 'key': 'SELFTEST|%s|%s' % (kind, name)})
+            cx.rules['SELFTEST'] = cx.rules.get('SELFTEST', 0) + 1
+    if missed or alarms:
+        # a broken checker is not a verdict about /repo
+        cx.obligations = [o for o in cx.obligations if o['rule'] != 'SELFTEST' or o['status'] == 'discharged']
+        raise core.AnalysisError('self-test failed: checker silent on breaking variant(s) %s; alarm on twin(s) %s' % (missed, alarms))
+    if n_break == 0:
+        cx.note('no seeded breaking variant for this property')
